@@ -186,7 +186,7 @@ RawResp raw_request(int src, const std::vector<std::pair<std::string, std::strin
         else if (send_body_late) send_str(s, bodystr);
         else ::shutdown(s, SHUT_WR);
     }
-    read_all(s, r.raw, 3000);
+    read_all(s, r.raw, 30000);   // the daemon closes the connection after its answer; the long limit only matters on an overloaded machine
     ::close(s);
     parse_raw(r);
     return r;
@@ -347,7 +347,7 @@ void do_req(const ev::Cmd& c) {
     for (const auto& [k, v] : hs) order += (order.empty() ? "" : ",") + k;
     e.s("order", order);
     // an over-cap declaration must be answered without the body: give a loaded machine time before calling it silence
-    RawResp r = raw_request(src, hs, body, withhold, late, overcap ? 4000 : 100);
+    RawResp r = raw_request(src, hs, body, withhold, late, overcap ? 15000 : 100);
     e.b("wf", wellformed).s("status", r.status).s("code", r.code);
     e.b("autherr", r.code.find("UNAUTH") != std::string::npos || r.code.find("AUTH") != std::string::npos || r.code.find("FORBIDDEN") != std::string::npos || r.code.find("DENIED") != std::string::npos);
     e.b("withheld", withhold).b("early", r.early);
